@@ -54,7 +54,7 @@ func TestVerifC13Child(t *testing.T) {
 		os.Exit(3)
 	}
 
-	if pnc := u.refreshAll(el, true, vc13ChildTimeout); pnc != nil {
+	if pnc := u.refreshAll(el, true, vc13ChildTimeout, false); pnc != nil {
 		fmt.Printf("VC13-ERR panic %v\n", pnc)
 		os.Exit(3)
 	}
@@ -66,7 +66,7 @@ func TestVerifC13Child(t *testing.T) {
 
 	fmt.Println("VC13-READY")
 
-	if pnc := u.refreshAll(el, false, vc13ChildTimeout); pnc != nil {
+	if pnc := u.refreshAll(el, false, vc13ChildTimeout, false); pnc != nil {
 		fmt.Printf("VC13-ERR panic %v\n", pnc)
 		os.Exit(3)
 	}
@@ -93,6 +93,9 @@ type vc13Kill struct {
 	ExtraUS     int    `json:"extra_us"`
 	DelayKillUS int    `json:"delay_kill_us"`
 
+	// PartialIdx adds invalid entries to the index of the round.
+	PartialIdx bool `json:"partial_idx,omitempty"`
+
 	// TmpFallback makes renameio put its temporary files into the cache
 	// directory itself.
 	TmpFallback bool `json:"tmp_fallback"`
@@ -101,17 +104,41 @@ type vc13Kill struct {
 // vc13GenKill draws a crash case.
 func vc13GenKill(t *rapid.T) (k *vc13Kill) {
 	k = &vc13Kill{Scripts: map[string]vc13Script{}}
-	crashFaults := []vc13Kind{vc13ConnClose, vc13S404, vc13S500, vc13Empty, vc13Oversize, vc13ShortCL, vc13ChunkTrunc}
+	crashFaults := []vc13Kind{
+		vc13ConnClose, vc13S404, vc13S500, vc13Empty, vc13Oversize, vc13OversizeChunked, vc13OversizeClose, vc13ShortCL,
+		vc13ChunkTrunc,
+	}
 	for _, tg := range vc13Targets {
 		sc := vc13Script{Kind: vc13OKNew, Fill: rapid.IntRange(0, 12).Draw(t, "fill-"+tg)}
+		sc.Form = rapid.SampledFrom([]string{"", "", "", "chunked", "close"}).Draw(t, "form-"+tg)
 		isHash := tg == "adult" || tg == "danger" || tg == "newreg"
-		if tg != "idx" && rapid.IntRange(0, 7).Draw(t, "fault-"+tg) == 0 {
+		switch what := rapid.IntRange(0, 15).Draw(t, "what-"+tg); {
+		case what <= 1 && tg != "idx":
+			// A transfer-level fault.
+			sc.Form = ""
 			sc.Kind = rapid.SampledFrom(crashFaults).Draw(t, "kind-"+tg)
 			sc.CutPct = rapid.SampledFrom([]int{10, 50, 90}).Draw(t, "cut-"+tg)
-			if isHash && sc.Kind == vc13Oversize {
+			sc.Over = rapid.SampledFrom([]int{0, 1, 7, vc13MaxSize}).Draw(t, "over-"+tg)
+			if isHash && vc13IsOversize(sc.Kind) {
+				// The hash lists have a large limit here.
 				sc.Kind = vc13S500
 			}
-		} else if isHash && rapid.Bool().Draw(t, "big-"+tg) {
+		case what == 2 && tg != "a" && tg != "b" && tg != "c":
+			// A complete body that its consumer rejects (or, for the
+			// rule-list index, partly rejects; see PartialIdx).
+			switch {
+			case isHash:
+				sc.Flavor = "longline"
+			case tg == "svc":
+				sc.Flavor = rapid.SampledFrom([]string{"badid", "nilentry", "typeerr", "notjson", "emptyrules"}).Draw(t, "flavor-svc")
+			case tg == "idx":
+				if rapid.Bool().Draw(t, "idx-notjson") {
+					sc.Flavor = "notjson"
+				} else {
+					k.PartialIdx = true
+				}
+			}
+		case isHash && what >= 8:
 			// About 0.3 to 1 MB.
 			sc.Fill = rapid.IntRange(10_000, 35_000).Draw(t, "bigfill-"+tg)
 		}
@@ -182,6 +209,9 @@ func TestVerifC13CrashPoints(t *testing.T) {
 
 		// Version 2, during which the child dies.
 		r2 := vc13Round{Idx: k.Scripts["idx"], Entries: r1.Entries, S: map[string]vc13Script{}}
+		if k.PartialIdx {
+			r2.Entries = []vc13Entry{{T: "nil"}, r1.Entries[0], {T: "badkey"}, r1.Entries[1], {T: "emptyurl"}, r1.Entries[2]}
+		}
 		for _, s := range vc13Slots {
 			r2.S[s.name] = k.Scripts[s.name]
 		}
@@ -189,7 +219,7 @@ func TestVerifC13CrashPoints(t *testing.T) {
 
 		resps, _ := w.plan(1, &r1)
 		w.srv.setPlan(resps, nil, nil)
-		pnc := w.u.refreshAll(w.el, true, vc13CtxGenerous)
+		pnc := w.u.refreshAll(w.el, true, vc13CtxGenerous, false)
 		w.srv.endRound()
 		if emsgs := w.el.take(); pnc != nil || len(emsgs) > 0 {
 			for _, m := range emsgs {
@@ -208,6 +238,8 @@ func TestVerifC13CrashPoints(t *testing.T) {
 				t.Fatalf("harness: initial load: slot %s serves %d", s.name, v1.Served[s.name])
 			}
 		}
+
+		vc13AgeFiles(w.dir)
 
 		resps, info := w.plan(2, &r2)
 		for _, r := range resps {
@@ -366,6 +398,24 @@ func TestVerifC13CrashPoints(t *testing.T) {
 		if k.TmpFallback {
 			classes = append(classes, "tmp:in-cache-dir")
 		}
+
+		for _, tg := range vc13Targets {
+			sc := k.Scripts[tg]
+			switch {
+			case !vc13IsOK(sc.Kind):
+				classes = append(classes, "round-fault:"+string(sc.Kind))
+			case sc.Flavor != "":
+				classes = append(classes, "round-content:"+sc.Flavor)
+			case sc.Form != "":
+				classes = append(classes, "round-okform:"+sc.Form)
+			}
+		}
+
+		if k.PartialIdx {
+			classes = append(classes, "round-content:partial-index")
+		}
+
+		classes = vc13Uniq(classes)
 
 		// Byte clause: every file is its version 1 or the completely
 		// delivered version 2.
